@@ -128,9 +128,12 @@ template <class F> static bool one_cap(size_t cap, F call, std::ostringstream &o
     return ret <= cap;
 }
 
-// literal call sites of the variadic wrappers; `k` selects the type string
-static const char *TEMPLATES[] = {"", "s", "isi", "ss", "b", "ifs", "sT", "hd"};
-static const int NTEMPLATES = 8;
+// literal call sites of the variadic entry points (rtosc_message, ThreadLink::write, RtData::reply,
+// RtData::broadcast); `k` selects the type string.  Same list in lean/Driver/OscbufEngine.lean
+// (`templates`) and tools/props/c02.py (TEMPLATES).
+static const char *TEMPLATES[] = {"", "s", "isi", "ss", "b", "ifs", "sT", "hd", "c", "m", "tS", "rf", "TFNI",
+                                  "iiiiiiii", "sbs", "dfhi", "[sb]i"};
+static const int NTEMPLATES = 17;
 
 #define VARIADIC_CALL(F, addr)                                                                         \
     switch (k) {                                                                                       \
@@ -142,6 +145,16 @@ static const int NTEMPLATES = 8;
     case 5: F(addr, "ifs", A.a[0].i, dbl(A.dbits[1]), A.a[2].s); break;                                \
     case 6: F(addr, "sT", A.a[0].s); break;                                                            \
     case 7: F(addr, "hd", A.a[0].h, dbl(A.dbits[1])); break;                                           \
+    case 8: F(addr, "c", A.a[0].i); break;                                                             \
+    case 9: F(addr, "m", A.a[0].m); break;                                                             \
+    case 10: F(addr, "tS", A.a[0].t, A.a[1].s); break;                                                 \
+    case 11: F(addr, "rf", A.a[0].i, dbl(A.dbits[1])); break;                                          \
+    case 12: F(addr, "TFNI"); break;                                                                   \
+    case 13: F(addr, "iiiiiiii", A.a[0].i, A.a[1].i, A.a[2].i, A.a[3].i, A.a[4].i, A.a[5].i, A.a[6].i, \
+               A.a[7].i); break;                                                                       \
+    case 14: F(addr, "sbs", A.a[0].s, A.a[1].b.len, A.a[1].b.data, A.a[2].s); break;                   \
+    case 15: F(addr, "dfhi", dbl(A.dbits[0]), dbl(A.dbits[1]), A.a[2].h, A.a[3].i); break;             \
+    case 16: F(addr, "[sb]i", A.a[0].s, A.a[1].b.len, A.a[1].b.data, A.a[2].i); break;                 \
     }
 
 static double dbl(uint64_t bits) { double d; memcpy(&d, &bits, 8); return d; }
@@ -154,7 +167,8 @@ static bool args_fit(int k, const std::vector<std::string> &w, size_t from) {
     size_t j = from;
     for (const char *t = TEMPLATES[k]; *t; ++t) {
         if (!has_payload(*t)) continue;
-        char want = (*t == 's') ? 's' : (*t == 'b') ? 'b' : (*t == 'i') ? 'w' : 'q';
+        char want = (*t == 's' || *t == 'S') ? 's' : (*t == 'b') ? 'b' : (*t == 'm') ? 'm'
+                    : (*t == 'i' || *t == 'c' || *t == 'r') ? 'w' : 'q';
         if (w[j].empty() || w[j][0] != want) return false;
         ++j;
     }
@@ -163,8 +177,9 @@ static bool args_fit(int k, const std::vector<std::string> &w, size_t from) {
 
 struct Capture : rtosc::RtData {
     std::string out;
+    size_t bound = 8192;                          // size of the wrapper's stack buffer (from the op line)
     void see(const char *tag, const char *msg) {
-        size_t l = rtosc_message_length(msg, 8192);
+        size_t l = rtosc_message_length(msg, bound);
         std::ostringstream o;
         o << tag << "=" << l << ":" << hex((const unsigned char *)msg, l);
         out = o.str();
@@ -192,22 +207,50 @@ static std::string step(const std::string &line) {
     arm_watchdog();
     auto w = words(line);
     if (w.size() < 2) return "bad-op";
-    if (w[0] == "M" && w.size() >= 6) {           // M <A|V> <lo> <hi> <addr> <tags> <arg>*
+    if ((w[0] == "M" || w[0] == "J") && w.size() >= 6) {   // M|J <A|V|L> <lo> <hi> <addr> <tags> <arg>*
         const std::string &mode = w[1];
+        const bool junk = w[0] == "J";
         size_t lo = (size_t)atoll(w[2].c_str()), hi = (size_t)atoll(w[3].c_str());
         bytes addr, tags;
         if (!unhex(w[4], addr) || !unhex(w[5], tags) || hi < lo || hi - lo > 100000) return "bad-op";
         Args A;
         if (!parse_args(w, 6, A)) return "bad-op";
         std::string saddr((const char *)addr.data(), addr.size()), stags((const char *)tags.data(), tags.size());
+        int k = -1;                               // mode L: the literal call site with this type string
+        if (mode == "L") {
+            for (int j = 0; j < NTEMPLATES; ++j)
+                if (stags == TEMPLATES[j]) k = j;
+            if (junk || k < 0 || !args_fit(k, w, 6)) return "bad-op";
+        }
         auto call = [&](char *b, size_t cap) -> size_t {
             if (mode == "A") return rtosc_amessage(b, cap, saddr.c_str(), stags.c_str(), A.a.data());
+            if (mode == "L") {
+                size_t ret = 0;
+#define MSG_CALL(addr, ...) ret = rtosc_message(b, cap, addr, __VA_ARGS__)
+                VARIADIC_CALL(MSG_CALL, saddr.c_str())
+#undef MSG_CALL
+                return ret;
+            }
             return call_v(b, cap, saddr.c_str(), stags.c_str(), A);
         };
-        if (mode != "A" && mode != "V") return "bad-op";
+        if (mode != "A" && mode != "V" && mode != "L") return "bad-op";
         std::ostringstream o, c;
         std::string guard = "ok";
-        o << "z=" << call(NULL, 0);
+        if (junk) {
+            // a type string with bytes that are no tags (outside the property's input space): only
+            // "no store outside the block" is evaluated, here: exact-size blocks under ASan, the
+            // canary blocks, return value not larger than the capacity
+            call(NULL, 0);
+            call(NULL, hi);
+            std::string bad;
+            for (size_t cap = lo; cap <= hi; ++cap) {
+                std::ostringstream one;
+                if (!one_cap(cap, call, one, guard) && bad.empty()) bad = one.str().substr(0, 60);
+            }
+            if (bad.empty() && guard == "ok") return "g=ok safe";
+            return "g=" + guard + " unsafe@" + bad;
+        }
+        o << "z=" << call(NULL, 0) << " zh=" << call(NULL, hi);
         for (size_t cap = lo; cap <= hi; ++cap) {
             if (cap != lo) c << ",";
             if (!one_cap(cap, call, c, guard)) c << "!ret-exceeds-len";
@@ -256,14 +299,15 @@ static std::string step(const std::string &line) {
         VARIADIC_CALL(tl.write, saddr.c_str())
         return tlink_state(tl, maxmsg);
     }
-    if ((w[0][0] == 'R' || w[0][0] == 'Q') && w.size() >= 2) {   // R<k> reply / Q<k> broadcast  <addr> <arg>*
+    if ((w[0][0] == 'R' || w[0][0] == 'Q') && w.size() >= 4) {   // R<k> reply / Q<k> broadcast  <N> <cap> <addr> <arg>*
         int k = atoi(w[0].c_str() + 1);
         bytes addr;
-        if (!unhex(w[1], addr) || !args_fit(k, w, 2)) return "bad-op";
+        if (!unhex(w[3], addr) || !args_fit(k, w, 4)) return "bad-op";
         Args A;
-        if (!parse_args(w, 2, A)) return "bad-op";
+        if (!parse_args(w, 4, A)) return "bad-op";
         std::string saddr((const char *)addr.data(), addr.size());
         Capture d;
+        d.bound = (size_t)atoll(w[1].c_str());    // N (w[2], the capacity passed, is for the model and the oracle)
         if (w[0][0] == 'R') { VARIADIC_CALL(d.reply, saddr.c_str()) }
         else { VARIADIC_CALL(d.broadcast, saddr.c_str()) }
         return d.out.empty() ? "nothing" : d.out;
